@@ -17,10 +17,24 @@ def _poly_eval(poly, x, y):
     return sum(c * x ** a * y ** b for a, b, c in poly)
 
 
+def _other_circle_users(N):
+    """what else draws circles on an N x N grid (corner origin, off-centre): must leave no trace in the Zernike modes"""
+    from aotools.functions import pupil
+    from aotools.image_processing import psf
+    pupil.circle(N / 3.0, N, (0.5, 1.0), origin="corner")
+    pupil.circle(1.0, N, (N / 2.0 + 0.25, 1.5), origin="corner")
+    if N >= 4:
+        img = np.outer(np.hanning(N + 2)[1:-1], np.hanning(N + 2)[1:-1]) + 0.01
+        if N % 2 == 0:                             # (encircled_energy works on even frames only)
+            psf.encircled_energy(img, fraction=0.5, center=[N / 2.0 - 0.5, N / 2.0])
+        psf.azimuthal_average(img)
+
+
 def check_modes(z, modes, sizes):
     bad = []
     n_cmp = 0
     for N in sizes:
+        _other_circle_users(N)
         coords = [Fraction(2 * i + 1 - N, N) for i in range(N)]
         inside = np.array([[cx * cx + cy * cy <= 1 for cx in coords] for cy in coords])
         for md in modes:
@@ -58,6 +72,7 @@ def check_arrays(z, aot, nmodes, sizes):
     bad = []
     from aotools.functions import pupil
     for N in sizes:
+        _other_circle_users(N)
         full = np.asarray(z.zernikeArray(nmodes, N))
         if full.shape != (nmodes, N, N):
             return [("zernikeArray:shape", dict(N=N, shape=list(full.shape)))]
